@@ -391,6 +391,11 @@ pub fn configs() -> Vec<Cfg> {
             v.push(Cfg { bits, init: i.to_string() });
         }
     }
+    // the widest setting crossing every boundary of the LCT field-size classes (16, 32, ... 96 bits): the
+    // allocated value stays the same, its encoding on the wire changes class
+    for k in [16u32, 32, 48, 64, 80, 96] {
+        v.push(Cfg { bits: 112, init: ((1u128 << k) - 2).to_string() });
+    }
     v
 }
 
